@@ -58,7 +58,7 @@ func solveAll(results []*FuncResult, quickMs, fullMs int) {
 			}
 		}
 	}
-	if len(retry) == 0 || len(retry) > 40 {
+	if len(retry) == 0 || len(retry) > 40 || os.Getenv("GVC_SURVEY") != "" {
 		return
 	}
 	sem2 := make(chan struct{}, 4)
